@@ -11,7 +11,7 @@ From DC Require Context.Model Context.Spec.
 From DC Require Collections.Model.
 From DC Require Causal.Model Causal.Entry Causal.Check.
 From DC Require CSM.Model.
-From DC Require Disruptor.Threads Disruptor.SeqApi.
+From DC Require Disruptor.Threads Disruptor.SeqApi Disruptor.PipeReplay Disruptor.MultiReplay.
 
 Extraction Language OCaml.
 
@@ -29,4 +29,5 @@ Extraction "model.ml"
   Causal.Entry.causal_model_entry Causal.Check.c01_check_entry Causal.Check.c10_check_entry
   CSM.Model.csm_check_entry
   Disruptor.Threads.ring_validate_entry
-  Disruptor.SeqApi.seqapi_model_entry Disruptor.SeqApi.seqapi_check_entry.
+  Disruptor.SeqApi.seqapi_model_entry Disruptor.SeqApi.seqapi_check_entry
+  Disruptor.PipeReplay.pipe_replay_entry Disruptor.MultiReplay.ring_replay_entry.
